@@ -64,6 +64,19 @@ CHECKS["C18"] = dict(
     note="Trusted: rustls/h2 clients as peers; TLS ciphertext is not traced. N = 100 and L = 120 MiB bodies are sampled rarely (thorough) or probed by verdict-before-body. HTTP/3 not simulated.",
 )
 
+CHECKS["C16"] = dict(
+    level="exploration",
+    text="Seeded search over histories of session/tunnel life-cycles and transfers, scraped at quiescent points through the real metrics listener running inside Core::listen(); a conservation model and the world's socket census decide the gauges and counters, /health-check must answer 200.",
+    design="DESIGN.md section 8 (C16)",
+    note="Trusted: the Prometheus text parser of the harness; label values compared case-insensitively; UDP gauge checked in C07's scenario. HTTP/3 not simulated.",
+)
+CHECKS["C20"] = dict(
+    level="exploration",
+    text="The scenarios of C01, C10, C17, C18, C08 and C02 re-run with all log records captured at Trace level and unique canaries in every secret-bearing field; any record containing a canary verbatim, base64-decoded or hex-dumped is a violation keyed by its source line.",
+    design="DESIGN.md section 8 (C20)",
+    note="Only records reaching the log facade are seen; paths the other scenarios do not reach are not covered. HTTP/3 not simulated.",
+)
+
 NOT_YET = {
 }
 
